@@ -27,3 +27,17 @@ pub fn set_watch(w: Vec<(u64, u64)>) {
 pub fn watch_snapshot() -> Vec<Vec<u8>> {
     venv::with(|e| e.watch_snapshot())
 }
+pub fn forget_owned() {
+    venv::with(|e| {
+        let keys: Vec<u64> = e.owned.keys().copied().collect();
+        for k in keys {
+            let (l, b) = e.owned.remove(&k).unwrap();
+            if b {
+                unsafe { libc_real_munmap(k, l) };
+            }
+        }
+    })
+}
+unsafe fn libc_real_munmap(a: u64, l: u64) {
+    vkit::arena::unmap(a, l);
+}
